@@ -190,6 +190,9 @@ def run(ctx):
         ip = im.calls_to(r"code_parser::CodePosition::character$")
         ctx.check(len(ip) == 1, P, "insert-pos-once", "one insertion offset per entry", im.where())
     rule_same_text(ctx, facts, P)
+    # one physical file = one list entry: check counts a location once, edit inserts once
+    from .c15 import rule_no_follow
+    rule_no_follow(ctx, facts, "C05-R2")
     # ---- R3 verdict --------------------------------------------------------------------------
     P = "C05-R3"
     ch = edit.anchor(ctx, facts, P, edit.CHECK, "check_references")
